@@ -1,6 +1,8 @@
 import MoneroModel.Proofs.ExtraComplete
 import MoneroModel.Proofs.ExtraLen
 import MoneroModel.Proofs.ExtraSpec
+import MoneroModel.Proofs.ExtraParseSpec
+import MoneroModel.Proofs.TxComplete2
 open Monero Monero.Extra
 /-! # C16 — transaction extra: well-formed sub-field sequences round-trip; parsing is total
 
@@ -113,10 +115,11 @@ theorem C16_ok_iff_no_resync (vk : Bytes → Bool) (e : Bytes) :
   have h2 := loop_pre vk e.length e [] false 0 _ h (Nat.le_refl _) (fun _ => rfl)
   exact ⟨by simpa using h1, h2.2, h2.1⟩
 
-/-- **The enclosing transaction never fails because of the extra.** Inside `TransactionPrefix` the extra is decoded
-as a capped `Vec<u8>` (`vec sizes.u8 u8`, which is also what `rawDecode` is): for a well-formed prefix `p` and *any*
-byte string `e` within the allocation cap put in its extra — whatever `tryParse` makes of `e` — decoding the encoding
-returns the prefix with `e` unchanged. -/
+/-- **The enclosing transaction PREFIX never fails because of the extra's content.** Inside `TransactionPrefix` the
+extra is decoded as a capped `Vec<u8>` (`vec sizes.u8 u8`, which is also what `rawDecode` is): for a well-formed prefix
+`p` and *any* byte string `e` within the allocation cap put in its extra — whatever `tryParse` makes of `e` — decoding
+the encoding returns the prefix with `e` unchanged. (This statement is about `prefix'` = `TransactionPrefix` and the
+bare byte vector only; the whole `Transaction` is `C16_whole_tx`.) -/
 theorem C16_never_fails_tx (p : Prefix) (e r : Bytes) (hp : wfPrefix p) (he : e.length ≤ CAP) :
     prefix' (encPrefix { p with extra := e } ++ r) = some ({ p with extra := e }, r) ∧
     vec sizes.u8 u8 (encVarint e.length ++ e ++ r) = some (e, r) := by
@@ -176,13 +179,40 @@ theorem C16_reparse (vk : Bytes → Bool) (e : Bytes) (hc : e.length ≤ CAP) :
   have hl := C16_parsed_not_longer vk e
   exact (C16_roundtrip vk _ hw (Nat.le_trans hl hc)).elim fun raw h => ⟨raw, h.1, h.2.2.1⟩
 
-/-- **`pre`, semantically.** `pre` is THE maximal chain of successful sub-field reads from offset 0 (`PreChain`:
-it stops at the end of the input or at the first failed read, and there is exactly one such chain), and its encoding
-(up to merge-mining size bytes) is an initial part of the input. -/
+/-- **`pre`, accumulator-free.** `pre` is THE maximal chain of successful reads OF THE MODEL'S OWN sub-field decoder
+`subFieldRd` from offset 0 (`PreChain`: it stops at the end of the input or at the first failed read, and there is
+exactly one such chain), and its encoding (up to merge-mining size bytes) is an initial part of the input. This only
+restates the `npre` bookkeeping of `loop` over the same decoder (cf. `C16_parse_equations`); the meaning of flag and
+`pre` in terms of an INDEPENDENT reading of the format is `C16_pre_is_grammar` below. -/
 theorem C16_pre_semantics (vk : Bytes → Bool) (e : Bytes) :
     PreChain vk e (tryParse vk e).pre ∧ (∀ l, PreChain vk e l → l = (tryParse vk e).pre) ∧
     (∃ p t, e = p ++ t ∧ EncUpToSize (tryParse vk e).pre p) :=
   ⟨tryParse_preChain vk e, fun _ hl => hl.unique (tryParse_preChain vk e), tryParse_pre_prefix vk e⟩
+
+/-- **Flag and `pre` are what the tx_extra grammar says.** `Spec.Extra.parse` (`Spec/ExtraParse.lean`) reads the extra
+by the format alone — no cursor, no resynchronisation: a field either occupies a known number of bytes at the start of
+what is left or it does not; it never imports the model. On every input within the allocation cap (every extra that can
+sit in a decoded transaction, `C16_tx_fails_iff`) it returns exactly the model's `Ok`/`Err` flag and the model's `pre`:
+`Ok` iff the whole input is a sequence of fields of the grammar, and `pre` = the fields that can be read before the
+first place where no field can be read. (Below the cap a declared length above the cap can never be "entirely
+present", so the library's cap test and the grammar's presence test fail together; above 32 MiB the two differ and
+the theorem does not apply.) -/
+theorem C16_pre_is_grammar (vk : Bytes → Bool) (e : Bytes) (hc : e.length ≤ CAP) :
+    Spec.Extra.parse vk e = (!(tryParse vk e).err, (tryParse vk e).pre.map Drv.C16.toSpec) :=
+  parse_eq_tryParse vk e hc
+
+/-- one field: within the cap the grammar finds a field at the start of `b` exactly when the sub-field decoder
+succeeds, the same field, occupying exactly the bytes the decoder consumed; when the decoder fails the grammar finds
+no field (where the decoder leaves its cursor is not a notion of the grammar) -/
+theorem C16_field_is_grammar (vk : Bytes → Bool) (b : Bytes) (hc : b.length ≤ CAP) :
+    (∀ sf r, subFieldRd vk b = (some sf, r) →
+      Spec.Extra.readField vk b = some (Drv.C16.toSpec sf, b.length - r.length) ∧ b.drop (b.length - r.length) = r) ∧
+    (∀ r, subFieldRd vk b = (none, r) → Spec.Extra.readField vk b = none) := by
+  have h := readField_eq vk b hc
+  refine ⟨fun sf r hs => ⟨by rw [h, hs], ?_⟩, fun r hs => by rw [h, hs]⟩
+  obtain ⟨_, _, sz, hb⟩ := subFieldRd_sound vk b sf r hs
+  have hl : b.length - r.length = (encSubSz sz sf).length := by rw [hb]; simp
+  rw [hl, hb]; simp
 
 /-- **A valid prefix survives whatever follows.** Well-formed sub-fields `fs` (no padding shorter than 255) followed
 by ANY bytes `t`: the parse returns `fs` first, unchanged, then the parse of `t`; the flag is that of `t`; `fs` is
@@ -201,7 +231,9 @@ theorem C16_prefix_survives (vk : Bytes → Bool) (fs : List SubField) (t : Byte
   · rw [h]; exact txPubkey_append_some hk _
   · rw [h]; exact txAdd_append_some hk _
 
-/-- **The well-formedness restriction is necessary.** A padding of fewer than 255 bytes followed by at least one more
+/-- **The short-padding restriction of `WFSeq` is necessary** (only that clause: necessity of key validity, of
+`n ≤ 255`, of `depth < 2^64` and of the cap clauses of `WFField` is not stated here; for decoded values they follow
+from `C16_decoder_sound`). A padding of fewer than 255 bytes followed by at least one more
 sub-field never round-trips: the parse of the concatenated encodings is not `Ok` with the same sequence (the padding
 swallows following zero bytes or fails on a non-zero one). -/
 theorem C16_short_padding_not_roundtrip (vk : Bytes → Bool) (n : Nat) (hn : n < 255) (g : SubField) (rest : List SubField) :
@@ -272,20 +304,47 @@ theorem C16_over_cap (fs : List SubField) (hl : (encFields fs).length < 2^64) :
     · rw [toRaw_over_cap fs (by omega) hl] at h; cases h
   · rw [encFields_eq] at h; rw [toRaw_eq fs h]; rfl
 
-/-- **The one way an extra fails the enclosing transaction: its size.** With everything else well formed, the prefix
-carrying extra bytes `e` decodes if and only if `e` is within the allocation cap — whatever `e` contains
-(complements `C16_never_fails_tx`, which assumes the cap). -/
+/-- **The one way an extra fails the enclosing transaction prefix: its size.** With everything else well formed, the
+`TransactionPrefix` carrying extra bytes `e` decodes if and only if `e` is within the allocation cap — whatever `e`
+contains (complements `C16_never_fails_tx`, which assumes the cap). Statement about `prefix'` and the bare byte
+vector; the whole `Transaction` is `C16_whole_tx`. -/
 theorem C16_tx_fails_iff (p : Prefix) (e r : Bytes) (hp : wfPrefix p) (hl : e.length < 2^64) :
     ((prefix' (encPrefix { p with extra := e } ++ r)).isSome = true ↔ e.length ≤ CAP) ∧
     ((vec sizes.u8 u8 (encVarint e.length ++ e ++ r)).isSome = true ↔ e.length ≤ CAP) :=
   ⟨prefix_isSome_iff p e r hp hl, vec_u8_isSome_iff e r hl⟩
 
+/-- **The whole transaction.** For a well-formed `Transaction` `t` (any version, with or without RingCT data:
+`wfTx`) whose extra is replaced by ANY bytes `e`: `Transaction::consensus_decode` of its encoding succeeds if and
+only if `e` is within the allocation cap, and then returns the transaction with `e` unchanged — nothing after the
+prefix depends on the extra. -/
+theorem C16_whole_tx (t : Tx) (e r : Bytes) (ht : wfTx t) (hl : e.length < 2^64) :
+    ((tx (encTx { t with pre := { t.pre with extra := e } } ++ r)).isSome = true ↔ e.length ≤ CAP) ∧
+    (e.length ≤ CAP →
+      tx (encTx { t with pre := { t.pre with extra := e } } ++ r) = some ({ t with pre := { t.pre with extra := e } }, r)) := by
+  obtain ⟨hp, h1, h2⟩ := ht
+  have hok : e.length ≤ CAP →
+      tx (encTx { t with pre := { t.pre with extra := e } } ++ r) = some ({ t with pre := { t.pre with extra := e } }, r) := by
+    intro he
+    obtain ⟨hv, hu, hi, ho, _⟩ := hp
+    have hcap : e.length * sizes.u8 ≤ CAP := by simpa [sizes, Gen.sizes] using he
+    exact complete_tx _ r ⟨⟨hv, hu, hi, ho, ⟨fun _ _ => trivial, hcap, hl⟩⟩, h1, h2⟩
+  refine ⟨⟨fun h => ?_, fun he => by rw [hok he]; rfl⟩, hok⟩
+  apply (prefix_isSome_iff t.pre e _ hp hl).1
+  unfold tx encTx at h
+  rw [List.append_assoc] at h
+  unfold Monero.bind at h
+  cases hq : prefix' (encPrefix { t.pre with extra := e } ++ _) with
+  | none => rw [hq] at h; cases h
+  | some x => rfl
+
 /-! ## the tag bytes are the regenerated ones -/
 
-/-- **Tags = `Gen` tables.** The tag byte the model's encoder writes for each variant is the one in the regenerated
-`Gen.subFieldEncode`; a successful read starts with a tag that `Gen.subFieldDecode` maps to the variant returned; a
+/-- **Tags = `Gen` tables.** The model (`subFieldRd`, `encSub`) writes the tag bytes as LITERALS (0x00 … 0x04, 0xde);
+this theorem proves them equal to the regenerated tables: the tag byte the model's encoder writes for each variant is
+the one in `Gen.subFieldEncode`; a successful read starts with a tag that `Gen.subFieldDecode` maps to the variant returned; a
 first byte outside `Gen.subFieldDecode` fails the read having consumed just that byte. (The tables are regenerated
-from the current source on every run, so a changed tag in the library breaks this theorem — beside relation B.) -/
+from the current source on every run, so a changed tag in the library makes this theorem FAIL TO BUILD — the model does
+not follow the source; the alarm is the broken proof, beside relation B.) -/
 theorem C16_tags_are_generated (vk : Bytes → Bool) :
     (∀ sf, (encSub sf).head? = (Gen.subFieldEncode.lookup (variantOf sf)).map UInt8.ofNat) ∧
     (∀ b sf r, subFieldRd vk b = (some sf, r) →
@@ -293,18 +352,19 @@ theorem C16_tags_are_generated (vk : Bytes → Bool) :
     (∀ t xs, (∀ v, (t.toNat, v) ∉ Gen.subFieldDecode) → subFieldRd vk (t :: xs) = (none, xs)) :=
   ⟨encSub_tag, subFieldRd_tag vk, subFieldRd_unknown_tag vk⟩
 
-/-! ## instantiation with the driver's Ed25519 key validity -/
+/-! ## the driver's Ed25519 key validity -/
 
-/-- `C16_roundtrip` and `C16_reparse` for `vk := Drv.C16.edValid` (decodes to a curve point of the reference Ed25519
-arithmetic and re-encodes to the same 32 bytes) — the instance the driver runs against the library -/
-theorem C16_roundtrip_ed25519 (fs : List SubField) (hw : WFSeq Drv.C16.edValid fs) (hc : (encFields fs).length ≤ CAP) :
-    ∃ raw, toRaw fs = some raw ∧ raw = (fs.map encSub).flatten ∧
-      tryParse Drv.C16.edValid raw = ⟨false, fs, fs⟩ ∧ rawTryParse Drv.C16.edValid raw = fs :=
-  C16_roundtrip Drv.C16.edValid fs hw hc
-theorem C16_reparse_ed25519 (e : Bytes) (hc : e.length ≤ CAP) :
-    ∃ raw, toRaw (tryParse Drv.C16.edValid e).fields = some raw ∧
-      tryParse Drv.C16.edValid raw = ⟨false, (tryParse Drv.C16.edValid e).fields, (tryParse Drv.C16.edValid e).fields⟩ :=
-  C16_reparse Drv.C16.edValid e hc
+/-- what the key-validity test the driver instantiates `vk` with means (every theorem above holds for every `vk`, so
+instances add nothing; this is the content of the instance): a byte string passes iff it has 32 bytes and decodes, by
+the reference Ed25519 arithmetic, to a curve point whose encoding is the same 32 bytes (canonical `y`, no "negative
+zero"). That the library's `PublicKey::from_slice` accepts exactly these is checked at run time only (special-key
+families of the harness). -/
+theorem C16_edValid_iff (k : Bytes) :
+    Drv.C16.edValid k = true ↔ k.length = 32 ∧ ∃ P, Ed.decodePt k = some P ∧ Ed.encodePt P = k := by
+  unfold Drv.C16.edValid
+  cases h : Ed.decodePt k with
+  | none => simp
+  | some P => simp
 
 /-! ## the hypotheses are satisfiable; small evaluations of the model -/
 
@@ -333,5 +393,37 @@ example : PreChain (fun _ => true) [0x02, 0x00, 0x05, 0xde] [.nonce []] :=
 /-- a short padding in the middle: the two paddings merge, `P n, P m ↦ P (n+m+1)` -/
 example : tryParse (fun _ => true) (((([.padding 1, .padding 2] : List SubField)).map encSub).flatten) =
     ⟨false, [.padding 4], [.padding 4]⟩ := by decide
+
+
+/-- `C16_ok_exact` really needs `isMM = false` for its third conjunct: a merge-mining field with a FOREIGN size byte
+(`0xff`) parses `Ok`, and the re-encoding differs from the input in exactly that byte (`EncUpToSize`'s `∃ sz`) -/
+example : tryParse (fun _ => true) (0x03 :: 0xff :: 0x00 :: List.replicate 32 9) =
+      ⟨false, [.mergeMining 0 (List.replicate 32 9)], [.mergeMining 0 (List.replicate 32 9)]⟩ ∧
+    encFields [.mergeMining 0 (List.replicate 32 9)] ≠ 0x03 :: 0xff :: 0x00 :: List.replicate 32 9 ∧
+    encFields [.mergeMining 0 (List.replicate 32 9)] = 0x03 :: 0x21 :: 0x00 :: List.replicate 32 9 := by
+  have he : encFields [.mergeMining 0 (List.replicate 32 9)] = 0x03 :: 0x21 :: 0x00 :: List.replicate 32 9 := by
+    rw [encFields_eq]; simp [flat, encSub, encVarint]
+  refine ⟨by decide, ?_, he⟩
+  rw [he]; decide
+
+/-- `C16_prefix_survives` with junk that fails: the flag is `Err`, the key is still found -/
+example : (tryParse (fun _ => true) ((([.txPub (List.replicate 32 7)] : List SubField).map encSub).flatten ++ [0x05, 0x00])).err = true ∧
+    txPubkey (tryParse (fun _ => true) ((([.txPub (List.replicate 32 7)] : List SubField).map encSub).flatten ++ [0x05, 0x00])).fields
+      = some (List.replicate 32 7) := by decide
+
+/-- the grammar reader on a failing input (through `C16_pre_is_grammar`): `Err`, and the one field before the unknown tag -/
+example : Spec.Extra.parse (fun _ => true) [0x02, 0x00, 0x05, 0xde] = (false, [.nonce []]) := by
+  have h : tryParse (fun _ => true) [0x02, 0x00, 0x05, 0xde] = ⟨true, [.nonce []], [.nonce []]⟩ := by decide
+  rw [C16_pre_is_grammar _ _ (by decide), h]; rfl
+
+/-- hypotheses of `C16_whole_tx`: a well-formed version-2 transaction without inputs -/
+example : wfTx ⟨⟨2, 0, [], [], []⟩, [], none, none⟩ := by
+  refine ⟨⟨?_, ?_, ⟨?_, ?_, ?_⟩, ⟨?_, ?_, ?_⟩, ⟨?_, ?_, ?_⟩⟩, ?_, ?_⟩
+  all_goals first
+    | (intro x hx; cases hx)
+    | (show (2 : Nat) < 2^64; decide) | (show (0 : Nat) < 2^64; decide)
+    | (show 0 * _ ≤ CAP; simp)
+    | (intro h; cases h)
+    | (intro _; exact ⟨rfl, fun _ => ⟨rfl, rfl⟩, fun h => absurd rfl h⟩)
 
 end C16
